@@ -20,3 +20,4 @@ MANIFEST = {
     "technique": "Lean 4 proof + differential correspondence (model vs real Go)",
     "design_ref": "4/C03",
 }
+CHK_PREDS = ["c03."]
